@@ -10,6 +10,7 @@
 //   gen  <file>     generateSeparationConstraints on given pair + placement (+ transform applied by the real code)
 //   tglf <file>     Graph::writeTglf(useExternalIds) -> buildGraphFromTglf: canonical dump of both graphs (nodes with and
 //                   without external ids, controlled internal ids)
+//   sub  [file]     transformClosedSubset / transformOpenSubset on arbitrary sparse matrices, one case per line (see modeSub)
 // Numbers cross the boundary as integers scaled by 4 (all inputs are multiples of 0.25); gaps as sign char + |g|*4.
 // The OCaml driver extract/c18_driver.ml produces the same text from the extracted Coq model.
 #include <cstddef>
@@ -458,6 +459,72 @@ static int modeTglf(const char *file)
     return 0;
 }
 
+// ---- mode sub: SepMatrix::transformClosedSubset / transformOpenSubset on arbitrary sparse matrices (through the public
+// Graph::transformClosedSubset / transformOpenSubset), one case per input line (file, or stdin when no file is given):
+//     <rows> | <ops>
+//     rows = ';'-separated  "i : j xgt ygt xst yst xgap ygap , j ..."   (raw ids, i < j; "i :" = a row left empty by
+//            SepMatrix::free, which creates m_sparseLookup[i]);  built with setSepPair
+//     ops  = ';'-separated  "O t id id ..." (transformOpenSubset) | "C t id id ..." (transformClosedSubset) | "T t"
+// output per case:  D | i j xgt ygt xst yst xgap ygap | ... | r <first ids of m_sparseLookup in iteration order>
+static std::vector<std::string> splitOn(const std::string &s, char c)
+{
+    std::vector<std::string> out; std::string cur;
+    for (char ch : s) { if (ch == c) { out.push_back(cur); cur.clear(); } else cur += ch; }
+    out.push_back(cur);
+    return out;
+}
+static int modeSub(std::istream &in)
+{
+    std::string line;
+    while (std::getline(in, line)) {
+        if (line.find('|') == std::string::npos) continue;
+        std::vector<std::string> parts = splitOn(line, '|');
+        if (parts.size() != 2) { puts("BADCASE"); continue; }
+        Graph G;
+        SepMatrix &m = G.getSepMatrix();
+        bool bad = false;
+        for (const std::string &row : splitOn(parts[0], ';')) {
+            size_t c = row.find(':');
+            if (c == std::string::npos) continue;
+            id_type i = (id_type) atol(row.substr(0, c).c_str());
+            bool any = false;
+            for (const std::string &cell : splitOn(row.substr(c + 1), ',')) {
+                std::istringstream is(cell);
+                long j; int xgt, ygt, xst, yst; std::string xg, yg;
+                if (!(is >> j >> xgt >> ygt >> xst >> yst >> xg >> yg)) continue;
+                SepPair_SP sp = std::make_shared<SepPair>();
+                sp->src = i; sp->tgt = (id_type) j;
+                sp->xgt = GTS[xgt]; sp->ygt = GTS[ygt]; sp->xst = STS[xst]; sp->yst = STS[yst];
+                sp->xgap = parsegap(xg); sp->ygap = parsegap(yg);
+                try { m.setSepPair(i, (id_type) j, sp); any = true; } catch (std::runtime_error &) { bad = true; }
+            }
+            if (!any) m.free(i, i + 1);     // leaves an empty row behind
+        }
+        if (bad) { puts("BADIDS"); continue; }
+        for (const std::string &op : splitOn(parts[1], ';')) {
+            std::istringstream is(op);
+            std::string o; int t;
+            if (!(is >> o >> t) || t < 0 || t > 6) continue;
+            std::set<id_type> ids; long v;
+            while (is >> v) ids.insert((id_type) v);
+            if (o == "O") G.transformOpenSubset(TFS[t], ids);
+            else if (o == "C") G.transformClosedSubset(TFS[t], ids);
+            else if (o == "T") m.transform(TFS[t]);
+        }
+        std::ostringstream ss;
+        ss << "D";
+        for (auto &p : m.m_sparseLookup) for (auto &q : p.second) {
+            if (!q.second) continue;
+            ss << " | " << p.first << " " << q.first << " " << pairstr(*q.second);
+            if (q.second->src != p.first || q.second->tgt != q.first) ss << " BADSRC";
+        }
+        ss << " | r";
+        for (auto &p : m.m_sparseLookup) ss << " " << p.first;
+        puts(ss.str().c_str());
+    }
+    return 0;
+}
+
 int main(int argc, char **argv)
 {
     if (argc < 2) return 2;
@@ -466,5 +533,6 @@ int main(int argc, char **argv)
     if (mode == "ops" && argc > 2) return modeOps(argv[2]);
     if (mode == "gen" && argc > 2) return modeGen(argv[2]);
     if (mode == "tglf" && argc > 2) return modeTglf(argv[2]);
+    if (mode == "sub") { if (argc > 2) { std::ifstream f(argv[2]); return modeSub(f); } return modeSub(std::cin); }
     return 2;
 }
